@@ -27,6 +27,7 @@ import (
 	"runtime"
 	"runtime/debug"
 	"sort"
+	"strconv"
 	"strings"
 	"sync"
 	"time"
@@ -412,6 +413,7 @@ type ccSession struct {
 	steps     []ccStep
 	first     []ccFres           // script of this session's entry function (engine.WithFirst); nil: none
 	debug     int                // 0: no; 1: state-debug mode (Config.StateDebug / State.UseDebug); 2: also Config.EngineDebug and an engine debugger
+	res       resource.Resource  // what its engines are given: its own recording DbResource, or a recording view of a PoResource shared by all sessions
 	live      []byte             // the pending-code slice that outlives its last request (st.Code of the long-lived state / of the last engine's state); kept referenced, so its array is never reused
 	lang      *string            // its own Config.Language (nil: the case's)
 	sharedPe  *persist.Persister // long-lived server shape: THE persister (WithFlush) every request of every session goes through
@@ -421,12 +423,118 @@ type ccSession struct {
 
 // deployment shape of one run (nil = the plain one)
 type ccExtra struct {
-	debug  []int    // per session
-	fs     []bool   // per session: persisted over the filesystem directory fsdir
-	fsdir  string   // concurrent/interleaved run: THE directory; solo runs: every session gets a sub-directory of its own
-	langs  []string // per session: its Config.Language
-	shared bool     // ONE persister created WithFlush (over one db/mem store) reused for every request of every session
-	applog bool     // sessions log through the application's logger
+	debug  []int                                            // per session
+	fs     []bool                                           // per session: persisted over the filesystem directory fsdir
+	fsdir  string                                           // concurrent/interleaved run: THE directory; solo runs: every session gets a sub-directory of its own
+	langs  []string                                         // per session: its Config.Language
+	shared bool                                             // ONE persister created WithFlush (over one db/mem store) reused for every request of every session
+	applog bool                                             // sessions log through the application's logger
+	poMk   func(sh *ccShared) (*resource.PoResource, error) // gettext shape: builds a PoResource over the case's locale directory
+	po     *resource.PoResource                             // the instance shared by the sessions of the current concurrent run
+}
+
+// a session's recording view of a (possibly shared) PoResource
+type ccRecPo struct {
+	*resource.PoResource
+	w *ccWorld
+}
+
+func (r *ccRecPo) GetCode(ctx context.Context, sym string) ([]byte, error) {
+	r.w.calls = append(r.w.calls, ccCall{Kind: "code", Sym: sym})
+	return r.PoResource.GetCode(ctx, sym)
+}
+func (r *ccRecPo) GetTemplate(ctx context.Context, sym string) (string, error) {
+	r.w.calls = append(r.w.calls, ccCall{Kind: "tpl", Sym: sym, Lang: ccCtxLang(ctx)})
+	return r.PoResource.GetTemplate(ctx, sym)
+}
+func (r *ccRecPo) GetMenu(ctx context.Context, sym string) (string, error) {
+	r.w.calls = append(r.w.calls, ccCall{Kind: "menu", Sym: sym, Lang: ccCtxLang(ctx)})
+	return r.PoResource.GetMenu(ctx, sym)
+}
+
+const ccPoDefault, ccPoRegistered, ccPoOnDisk = "eng", "nor", "fra" // default language; registered with WithLanguage; .po file present but NEVER registered
+
+// write a gettext locale directory for the application (node templates under the key domain x-vise, menu labels under
+// x-vise_menu of the default language; translations of the resulting texts in <lang>/default.po) and return the
+// application whose plain tables say the same as the PoResource over that directory with ONLY ccPoRegistered registered:
+// translated where nor/default.po has the text, the source text for every other language (default, unregistered, none)
+func ccWritePo(r *rand.Rand, dir string, a *ccApp) (*ccApp, error) {
+	q := strconv.Quote
+	b := &ccApp{Code: a.Code, Funcs: a.Funcs, Fn: a.Fn}
+	var keyTpl, keyMenu, nor, fra strings.Builder
+	seen := map[string]bool{}
+	tr := func(text string) bool { // one translation per text
+		if seen[text] {
+			return strings.Contains(nor.String(), "msgid "+q(text)+"\n")
+		}
+		seen[text] = true
+		fmt.Fprintf(&fra, "msgid %s\nmsgstr %s\n\n", q(text), q(ccPoOnDisk+":"+text))
+		if r.Intn(3) > 0 {
+			fmt.Fprintf(&nor, "msgid %s\nmsgstr %s\n\n", q(text), q(ccPoRegistered+":"+text))
+			return true
+		}
+		return false
+	}
+	for _, t := range a.Tpl {
+		if strings.Contains(t.K, "_") && t.K != "_catch" {
+			continue // only the plain node entries
+		}
+		fmt.Fprintf(&keyTpl, "msgid %s\nmsgstr %s\n\n", q(t.K), q(t.V))
+		b.Tpl = append(b.Tpl, ccKV{t.K, t.V})
+		if tr(t.V) {
+			b.Tpl = append(b.Tpl, ccKV{t.K + "_" + ccPoRegistered, ccPoRegistered + ":" + t.V})
+		}
+	}
+	for _, l := range []string{"lbl1", "lbl2", "back"} {
+		m := "M-" + l
+		fmt.Fprintf(&keyMenu, "msgid %s\nmsgstr %s\n\n", q(l), q(m))
+		b.Menu = append(b.Menu, ccKV{l + "_menu", m})
+		if tr(m) {
+			b.Menu = append(b.Menu, ccKV{l + "_menu_" + ccPoRegistered, ccPoRegistered + ":" + m})
+		}
+	}
+	sort.Slice(b.Tpl, func(i, j int) bool { return b.Tpl[i].K < b.Tpl[j].K })
+	for _, f := range []struct{ p, v string }{
+		{filepath.Join(ccPoDefault, "x-vise.po"), keyTpl.String()},
+		{filepath.Join(ccPoDefault, "x-vise_menu.po"), keyMenu.String()},
+		{filepath.Join(ccPoRegistered, "default.po"), nor.String()},
+		{filepath.Join(ccPoOnDisk, "default.po"), fra.String()},
+	} {
+		fp := filepath.Join(dir, f.p)
+		if err := os.MkdirAll(filepath.Dir(fp), 0700); err != nil {
+			return nil, err
+		}
+		if err := os.WriteFile(fp, []byte(f.v), 0600); err != nil {
+			return nil, err
+		}
+	}
+	return b, nil
+}
+
+// a PoResource over dir: default language, ONE registered language, code from the run's shared arrays
+func ccMkPo(dir string) func(sh *ccShared) (*resource.PoResource, error) {
+	return func(sh *ccShared) (*resource.PoResource, error) {
+		dl, err := lang.LanguageFromCode(ccPoDefault)
+		if err != nil {
+			return nil, err
+		}
+		rl, err := lang.LanguageFromCode(ccPoRegistered)
+		if err != nil {
+			return nil, err
+		}
+		p := resource.NewPoResource(dl, dir).WithLanguage(rl)
+		codes := map[string][]byte{}
+		for _, c := range sh.code {
+			codes[c.name] = c.s
+		}
+		p.WithCodeGetter(func(ctx context.Context, sym string) ([]byte, error) {
+			if c, ok := codes[sym]; ok {
+				return c, nil
+			}
+			return nil, db.NewErrNotFound([]byte(sym))
+		})
+		return p, nil
+	}
 }
 
 // the application's logger: a value of the library's logger type at a level that emits, shared (by value)
@@ -437,13 +545,31 @@ func (x *ccExtra) apply(s *ccSession, i int, solo bool) error {
 	if x == nil {
 		return nil
 	}
+	if x.poMk != nil {
+		// templates and labels through gettext: ONE PoResource for all sessions of a concurrent run, one of its own when alone
+		p := x.po
+		if solo || p == nil {
+			var err error
+			p, err = x.poMk(s.sh)
+			if err != nil {
+				return err
+			}
+			if !solo {
+				x.po = p
+			}
+		}
+		s.res = &ccRecPo{PoResource: p, w: s.w}
+		if !s.persisted {
+			s.en = engine.NewEngine(s.cfg, s.res).WithState(s.st).WithMemory(s.ca)
+		}
+	}
 	if x.langs != nil {
 		l := x.langs[i]
 		s.lang = &l
 		s.cfg.Language = l
 		if !s.persisted {
 			// the long-lived engine is built from the configuration: build it again (before setDebug / withFirst)
-			s.en = engine.NewEngine(s.cfg, s.rs).WithState(s.st).WithMemory(s.ca)
+			s.en = engine.NewEngine(s.cfg, s.res).WithState(s.st).WithMemory(s.ca)
 		}
 	}
 	if x.debug != nil {
@@ -476,7 +602,7 @@ func (s *ccSession) setDebug(mode int) {
 	}
 	if !s.persisted {
 		s.st.UseDebug() // Config.StateDebug reaches the state only through a persister
-		en := engine.NewEngine(s.cfg, s.rs).WithState(s.st).WithMemory(s.ca)
+		en := engine.NewEngine(s.cfg, s.res).WithState(s.st).WithMemory(s.ca)
 		if mode == 2 {
 			en = en.WithDebug(engine.NewSimpleDebug(io.Discard))
 		}
@@ -528,6 +654,7 @@ func ccNewSession(a *ccApp, c *ccCfg, sh *ccShared, id int, persisted bool) (*cc
 		return nil, err
 	}
 	s.rs = rs
+	s.res = rs
 	s.cfg = engine.Config{OutputSize: c.Out, SessionId: fmt.Sprintf("sess%d", id), Root: c.Root, FlagCount: c.FlagCount, CacheSize: c.CacheSize,
 		Language: c.Lang, MenuSeparator: c.Sep, ResetOnEmptyInput: c.ResetEmpty}
 	if persisted {
@@ -540,7 +667,7 @@ func ccNewSession(a *ccApp, c *ccCfg, sh *ccShared, id int, persisted bool) (*cc
 		if c.CacheSize > 0 {
 			s.ca = s.ca.WithCacheSize(c.CacheSize)
 		}
-		s.en = engine.NewEngine(s.cfg, s.rs).WithState(s.st).WithMemory(s.ca)
+		s.en = engine.NewEngine(s.cfg, s.res).WithState(s.st).WithMemory(s.ca)
 	}
 	return s, nil
 }
@@ -572,7 +699,7 @@ func (s *ccSession) request(in []byte) bool {
 		if s.sharedPe != nil {
 			pe = s.sharedPe
 		}
-		en = engine.NewEngine(s.cfg, s.rs).WithPersister(pe)
+		en = engine.NewEngine(s.cfg, s.res).WithPersister(pe)
 		if s.debug == 2 {
 			en = en.WithDebug(engine.NewSimpleDebug(io.Discard))
 		}
@@ -1895,7 +2022,7 @@ func ccRunRace(o opts) error {
 	}
 	lastDebug := -1
 	for i := 0; i < o.n; i++ {
-		if i%3 == 1 {
+		if i%3 == 1 && i%10 != 7 {
 			lastDebug = i
 		}
 	}
@@ -1903,7 +2030,10 @@ func ccRunRace(o opts) error {
 		r := hx.Rng(o.seed, "race", i)
 		stop := ccWatchdog(fmt.Sprintf("race case %d (seed %d)", i, o.seed))
 		var g ccGen
-		if i%3 == 0 {
+		poRun := i%10 == 7
+		if poRun {
+			g = ccGenAppOpt(r, true, false) // nothing is loaded: a shared resource would mean shared entry functions
+		} else if i%3 == 0 {
 			// language runs: a lang1 function (answers language codes, sets FLAG_LANG) loaded by some nodes, translated templates
 			g = ccGenLangApp(r, true, false)
 		} else {
@@ -1935,7 +2065,26 @@ func ccRunRace(o opts) error {
 		kind := "app-concurrent"
 		var x *ccExtra
 		rx := hx.Rng(o.seed, "race-shape", i)
-		switch i % 3 {
+		shape := i % 3
+		podir := ""
+		if poRun {
+			// gettext runs: the sessions' engines share ONE resource.PoResource (templates and labels from .po files; only the default
+			// language and nor registered), sessions in the default language, in the registered one, in valid codes nobody registered
+			// (fra: a .po file exists; swa: none), or without a language
+			shape = -1
+			kind = "app-concurrent-po"
+			podir = filepath.Join(o.out, fmt.Sprintf("porun-%d", i))
+			eq, err := ccWritePo(rx, podir, g.app)
+			if err != nil {
+				return err
+			}
+			g.app = eq
+			x = &ccExtra{poMk: ccMkPo(podir), langs: make([]string, k)}
+			for j := range x.langs {
+				x.langs[j] = []string{ccPoDefault, ccPoRegistered, ccPoOnDisk, "swa", ""}[(j+rx.Intn(2))%5]
+			}
+		}
+		switch shape {
 		case 0:
 			// every session with a Config.Language of its own (resolved when its engine is prepared; the lang1 function
 			// resolves more codes during requests): sessions resolve DIFFERENT codes at overlapping moments
@@ -2005,6 +2154,9 @@ func ccRunRace(o opts) error {
 					return err
 				}
 			}
+			if x != nil {
+				x.po = nil // a freshly created shared resource for every concurrent run
+			}
 			rr, err := ccConcurrent(g, pers, firsts, hist, x)
 			if x != nil && x.fs != nil {
 				os.RemoveAll(x.fsdir)
@@ -2020,6 +2172,9 @@ func ccRunRace(o opts) error {
 			if !ok {
 				break
 			}
+		}
+		if podir != "" {
+			os.RemoveAll(podir)
 		}
 		stop()
 		w.Add(ccAppCase(kind, g, run, solo, map[string]interface{}{"goroutines": k, "repetitions": reps, "persisted": pers, "shape": x.desc()}))
